@@ -180,7 +180,11 @@ int CVode(void *mem, realtype tout, N_Vector y, realtype *tret, int) {
         tnew = tout;
     } else {
         tnew = m->tcur + frac * (tout - m->tcur);
-        if (!(tnew < tout)) tnew = m->tcur;  // never complete on a failure
+        if (frac == 1.0) {
+            tnew = tout;  // abnormal but conceivable: the flag is raised after the whole target was reached (ladder stratum only)
+        } else if (!(tnew < tout)) {
+            tnew = m->tcur;  // otherwise never complete on a failure
+        }
         g_mock.fail_events.push_back(FailEvent{g_mock.level, g_mock.substep, flag});
     }
     realtype adv = tnew - m->tcur;
